@@ -1,5 +1,6 @@
 """C14 (decidable clause) - building an equilibrium does not modify the caller's input arrays: AST slice of the prologue of
 TokamakEquilibrium.__init__ (sign / 2*pi options, profile extrapolation) run on object arrays of symbols."""
+import ast
 import types
 
 import numpy
@@ -28,10 +29,24 @@ META = {
 _S = {}
 
 
+def _after_user_options():
+    """first statement after `self.user_options = self.user_options_factory.create(settings)` (on the pinned tree: `if self.user_options.reverse_current:`);
+    anything a change computes from the raw inputs before the sign/2*pi handling is then part of the slice"""
+    seen = []
+
+    def pred(n):
+        if seen:
+            return True
+        if isinstance(n, ast.Assign) and "self.user_options" in ast.unparse(n.targets[0]) and "create(" in ast.unparse(n.value):
+            seen.append(1)
+        return False
+    return pred
+
+
 def prologue():
     if "fn" not in _S:
         _S["fn"], _S["info"] = slices.slice_function(
-            tok.TokamakEquilibrium.__init__, slices.is_if_on("reverse_current"), slices.is_call_stmt("magneticFunctionsFromGrid"),
+            tok.TokamakEquilibrium.__init__, _after_user_options(), slices.is_call_stmt("magneticFunctionsFromGrid"),
             ["self", "R1D", "Z1D", "psi2D", "psi1D", "fpol1D", "pressure", "psi_axis_gfile", "psi_bdry_gfile"], tok.__dict__, name="init_prologue")
     return _S["fn"], _S["info"]
 
